@@ -196,3 +196,18 @@ class PhaseCounter:
             elif n == unit and cur is not None:
                 out[cur] += 1
         return out
+
+
+def libccd_first_edge(A, B):
+    """The first simplex edge of gjk_intersection_libccd, rebuilt through the public collider interface: v0 from the
+    first vertices, v1 the support difference towards the origin. Returns (sine of the angle between the edge and the
+    direction to the origin, squared length of the triple product (AB x AO) x AB the algorithm continues with)."""
+    v0 = np.asarray(A.first_vertex(), float) - np.asarray(B.first_vertex(), float)
+    if not np.any(v0):
+        return 0.0, 0.0
+    v1 = np.asarray(A.support_function(-v0), float) - np.asarray(B.support_function(v0), float)
+    AB = v0 - v1; AO = -v1
+    den = float(np.linalg.norm(AB) * np.linalg.norm(AO))
+    c = np.cross(AB, AO)
+    t = np.cross(c, AB)
+    return (float(np.linalg.norm(c)) / den if den > 0 else 0.0), float(t @ t)
